@@ -7,6 +7,10 @@ no-artefact / warnings-never-fail; the excerpt renderer indexes safely iff the r
 Tie (every run, from /repo's working tree):
   R  renderer: exhaustive (line, column)^2 grids over several texts through the real ddperror.MakeAdvancedHandler
      vs the extracted model (capacity slack measured on the implementation) and judged directly (in-text => no panic)
+  H  handler chain: ONE MakeAdvancedHandler set up for the main file exactly as cmd/kddp does (diagx chain mode and the
+     kddp binary) over multi-module layouts x spellings of the main path (relative, ./, zz/.., absolute, from the parent
+     directory; same-named modules in sub/sibling/twice-nested directories) x raising module x error/warning x far/near
+     ranges: no panic, message printed, excerpt lines belong to the file the diagnostic names, count = model's shown_lines
   F  flags: generated multi-module programs whose event trace is known by construction -> extracted model ->
      delivered (level, module, code) sequence and every Faulty flag must equal the real frontend's
   D  direct judgement of the property on goldens, one-fault programs and token deletion / duplication /
@@ -572,6 +576,88 @@ def shrink_lines(files, target, still_bad, budget=40):
     return cur
 
 
+
+# ------------------------------------------------------------------------------------------------
+# leg H: the handler chain of cmd/kddp over multi-module arrangements x spellings of the main path
+# ------------------------------------------------------------------------------------------------
+LONGNAME = "sehr_langer_name_damit_die_spalte_hinter_jeder_kurzen_zeile_liegt"
+EXC = re.compile(r"^ *(\d+) \|  (.*)$")
+
+
+def chain_arrangements():
+    """every (layout, spelling of the main path, module that raises the diagnostic, error|warning, far|near)"""
+    layouts = {
+        # name: (main file, natural cwd, [(module file, import text inside its importer)] chain main -> direct -> transitive)
+        "sub-same": ("w/demo.ddp", "w", [("w/lib/demo.ddp", "lib/demo")]),
+        "sub-other": ("w/demo.ddp", "w", [("w/lib/other.ddp", "lib/other")]),
+        "nested-twice": ("w/demo.ddp", "w", [("w/lib/demo.ddp", "lib/demo"), ("w/lib/lib/demo.ddp", "lib/demo")]),
+        "sibling": ("w/a/demo.ddp", "w/a", [("w/b/demo.ddp", "../b/demo")]),
+        "dir-spelled": ("w/lib/demo.ddp", "w", [("w/lib/lib/demo.ddp", "lib/demo"), ("w/lib/lib/lib/demo.ddp", "lib/demo")]),
+        "three-levels": ("w/demo.ddp", "w", [("w/x/mod.ddp", "x/mod"), ("w/x/y/demo.ddp", "y/demo")]),
+    }
+    out = []
+    for lname, (mainf, cwd, chain) in sorted(layouts.items()):
+        mods = [mainf] + [c[0] for c in chain]
+        for where in range(len(mods)):
+            for kind in ("e", "w"):
+                for pos in ("far", "near"):
+                    files = {}
+                    for i, mf in enumerate(mods):
+                        L = []
+                        if i + 1 < len(mods):
+                            L.append('Binde "%s" ein.' % chain[i][1])
+                        if i == where:
+                            if pos == "far":
+                                L += ["Die Zahl p%d%d ist %d." % (i, k, k) for k in range(7)]
+                                L.append("Die Zahl %s ist wahr." % LONGNAME if kind == "e" else "[ %s ] ..." % LONGNAME)
+                            else:
+                                L.append("Die Zahl q ist wahr." if kind == "e" else "...")
+                        elif pos == "near":
+                            L += ["Die Zahl p%d%d ist %d." % (i, k, k) for k in range(5)]
+                        files[mf] = "\n".join(L) + "\n"
+                    rel = os.path.relpath(mainf, cwd)
+                    spell = [("relative", cwd, rel), ("dot", cwd, "./" + rel), ("absolute", cwd, None),
+                             ("parent", os.path.dirname(cwd) or ".", os.path.join(os.path.basename(cwd), rel)),
+                             ("dotdot", cwd, os.path.join("zz", "..", rel))]
+                    for sname, scwd, sp in spell:
+                        out.append(dict(layout=lname, spelling=sname, cwd=scwd, file=sp, main=mainf, files=files, where=where, kind=kind, pos=pos,
+                                        diag_file=mods[where]))
+    return out
+
+
+def judge_chain(a, base, resp, texts):
+    """the property on one run of the real handler chain: [(problem, what)]"""
+    bad = []
+    if resp is None or "crash" in resp or resp.get("panic") or resp.get("nil_module"):
+        return [("frontend-crash", "the frontend crashed: %s" % (resp,))]
+    top = [d for d in resp["diags"] if d["wrapped"] == 0]
+    if not top:
+        bad.append(("no-diagnostic", "the arrangement was built to raise a diagnostic in %s but none was delivered" % a["diag_file"]))
+    for d in top:
+        named = d["file"] if os.path.isabs(d["file"]) else os.path.normpath(os.path.join(base, a["cwd"], d["file"]))
+        out = d.get("out", "")
+        if d.get("panic_chain"):
+            bad.append(("panic", "MakeAdvancedHandler(%r, text of the main file) panics on the diagnostic %d of %s range (%d,%d)-(%d,%d): %s; printed only %r"
+                        % (a["file_spelled"], d["code"], os.path.relpath(named, base), d["sl"], d["sc"], d["el"], d["ec"], d["panic_chain"], out[:120])))
+            continue
+        if d["msg"].split("\n")[0][:60] not in out:
+            bad.append(("message-missing", "the message of diagnostic %d is not in the handler's output %r" % (d["code"], out[:200])))
+        try:
+            lines = open(named, encoding="utf-8").read().split("\n")
+        except OSError:
+            lines = None
+        for ol in out.split("\n"):
+            m = EXC.match(ol)
+            if not m:
+                continue
+            n = int(m.group(1))
+            want = None if lines is None or not (1 <= n <= len(lines)) else lines[n - 1].replace("\t", "    ").rstrip("\r")
+            if want is None or m.group(2).rstrip() != want.rstrip():
+                bad.append(("foreign-excerpt", "diagnostic %d names %s range (%d,%d)-(%d,%d) but the excerpt shows line %d as %r, which is not that file's line (%r)"
+                            % (d["code"], os.path.relpath(named, base), d["sl"], d["sc"], d["el"], d["ec"], n, m.group(2)[:80], want)))
+                break
+    return bad
+
 # ------------------------------------------------------------------------------------------------
 def main():
     ck = Check(PID, "proof")
@@ -582,6 +668,8 @@ def main():
         "the excess capacity of []rune(line) (Go runtime: 32-rune stack buffer / size classes) is a parameter of Diag/Render.v; its values are measured on the implementation",
         "range validity is judged against the file on disk split at LF, lengths in code points; End.Column is exclusive (one behind the last rune)",
         "the ~300 range construction sites are NOT modelled: ranges are validated on the generated inputs only (see diag_codes_validated)",
+        "handler chain: filepath.Clean and 'the text a path names' are parameters of Diag/Render.v (instantiated by os.path.normpath and the files on disk); "
+        "the file-selection rule (excerpt iff Clean(err.File) = Clean(file)) is tied by leg H on the listed layouts x spellings only",
         "kddp's own link step is not run (object output -o x.o); code generation and LLVM are outside the model (parameter codegen_ok)",
     ]
     ck.assumptions = [
@@ -591,7 +679,7 @@ def main():
         "exit status theorems take codegen_ok as a parameter: a code generator failure on a non-faulty module is outside the flag machine",
         "renderer theorems: Line/Column < 2^64 (Go uint) and line length + capacity slack + 1 < 2^64",
         "theorem status: FULL C07_warnings_never_fail, C07_no_artifact_when_faulty, C07_any_faulty_is_root_or_imported, C07_render_total_iff_in_text(_exact), C07_render_total_if_in_text, "
-        "C07_render_degenerate_prints_nothing, C07_newrange_in_text; PARTIAL C07_faulty_iff_delivered_partial, C07_faulty_imp_delivered_partial, C07_delivered_imp_root_faulty_partial, "
+        "C07_render_degenerate_prints_nothing, C07_newrange_in_text, C07_handler_prints_every_in_text_diagnostic, C07_unhandled_file_header_only, C07_*_repaired; PARTIAL C07_faulty_iff_delivered_partial, C07_faulty_imp_delivered_partial, C07_delivered_imp_root_faulty_partial, "
         "C07_exit_nonzero_iff_partial, C07_no_artifact_on_failure_partial; REFUTED C07_faulty_iff_delivered_refuted, C07_delivered_imp_faulty_refuted, C07_exit_nonzero_iff_refuted, C07_no_artifact_on_failure_refuted",
     ]
     ck.coq()
@@ -792,6 +880,83 @@ def main():
                             measured_slack={repr(g[0][:12]): g[2] for g in grids})
 
     log('[c07] %.1fs renderer done' % (time.time()-ck.t0))
+    # ---- H. the handler chain as cmd/kddp wires it: multi-module arrangements x path spellings -------
+    hbase = os.path.join(sc, "H")
+    arr = chain_arrangements()
+    hreqs = []
+    for i, a in enumerate(arr):
+        base = os.path.join(hbase, str(i))
+        for f, t in a["files"].items():
+            os.makedirs(os.path.dirname(os.path.join(base, f)), exist_ok=True)
+            open(os.path.join(base, f), "w", encoding="utf-8").write(t)
+        os.makedirs(os.path.join(base, a["cwd"], "zz"), exist_ok=True)
+        a["base"] = base
+        a["file_spelled"] = a["file"] if a["file"] is not None else os.path.join(base, a["main"])
+        hreqs.append(dict(id=str(i), file=a["file_spelled"], cwd=os.path.join(base, a["cwd"]), chain=True))
+    hres = run_diagx(diagx, hreqs, env)
+    ck.count(len(hreqs))
+    hm_lines = []
+    hm_meta = []
+    hstat = dict(arrangements=len(arr), layouts=sorted({a["layout"] for a in arr}), spellings=sorted({a["spelling"] for a in arr}),
+                 diagnostics=0, with_excerpt=0, header_only=0)
+    for a, resp in zip(arr, hres):
+        bad = judge_chain(a, a["base"], resp, texts)
+        same_base = int(os.path.basename(a["diag_file"]) == os.path.basename(a["main"]))
+        for prob, what in bad:
+            key = "handler-chain problem=%s main-path=%s diag-in=%s same-basename=%d" % (
+                prob, "absolute" if a["spelling"] == "absolute" else "relative", "main" if a["where"] == 0 else "imported", same_base)
+            if key in reported:
+                continue
+            reported.add(key)
+            ck.violation(key, what, dict(files=a["files"], cwd=a["cwd"], main_as_given=a["file_spelled"] if a["file"] is None else a["file"], layout=a["layout"], spelling=a["spelling"],
+                                         how="write the files below a directory B; cd B/<cwd>; kddp kompiliere <main_as_given> -o out.o -O 0   "
+                                             "(or diagx {\"file\":<main_as_given>,\"cwd\":\"B/<cwd>\",\"chain\":true})"))
+        if bad or resp is None or "diags" not in resp:
+            continue
+        note_codes(resp)
+        mainabs = os.path.join(a["base"], a["main"])
+        mlens = texts.lines(mainabs)
+        for d in resp["diags"]:
+            if d["wrapped"]:
+                continue
+            hstat["diagnostics"] += 1
+            shown = sum(1 for ol in d.get("out", "").split("\n") if EXC.match(ol))
+            hstat["with_excerpt" if shown else "header_only"] += 1
+            ck.nontrivial(("H", a["layout"], a["spelling"], a["where"], a["kind"], a["pos"]))
+            hm_lines.append("H %s %s %s - %d %d %d %d" % (os.path.normpath(a["file_spelled"]), os.path.normpath(d["file"]), ",".join(map(str, mlens)) or "-", d["sl"], d["sc"], d["el"], d["ec"]))
+            hm_meta.append((a, d, shown))
+    hmis = None
+    for (a, d, shown), ml in zip(hm_meta, run_model(hm_lines) if hm_lines else []):
+        f = ml.split()
+        if f[1] == "1" and int(f[2]) != shown and hmis is None:
+            hmis = (a["layout"], a["spelling"], d["file"], (d["sl"], d["sc"], d["el"], d["ec"]), shown, int(f[2]))
+    if hmis and not ck.violations:
+        ck.broken_obligation("correspondence Render.handled/shown_lines vs MakeAdvancedHandler's file selection fails: layout %s spelling %s diagnostic of %s range %s: %d excerpt lines printed, model %d" % hmis, "")
+    # the kddp binary itself on one arrangement per layout x {error, warning}
+    ksel = [a for a in arr if a["spelling"] == "relative" and a["pos"] == "far" and a["where"] == len(a["files"]) - 1]
+
+    def kddp_chain(a):
+        cwd = os.path.join(a["base"], a["cwd"])
+        obj = os.path.join(a["base"], "out.o")
+        try:
+            p = subprocess.run([b.kddp, "kompiliere", a["file_spelled"], "-o", obj, "-O", "0"], capture_output=True, text=True, env=env, cwd=cwd, timeout=120)
+            return p.returncode, p.stderr
+        except subprocess.TimeoutExpired:
+            return -9, "timeout"
+    for a, (rc, err) in zip(ksel, vlib.pmap(kddp_chain, ksel)):
+        ck.count()
+        rep = dict(files=a["files"], cwd=a["cwd"], command="kddp kompiliere %s -o out.o -O 0" % a["file_spelled"], exit=rc, stderr=err[-1500:])
+        if "goroutine " in err or "runtime error" in err or "Unerwarteter Fehler" in err:
+            ck.violation("handler-chain kddp problem=crash main-path=relative same-basename=%d" % int(os.path.basename(a["diag_file"]) == os.path.basename(a["main"])),
+                         "kddp dies with a Go runtime error while printing the diagnostic of %s" % a["diag_file"], rep)
+        elif ("wahr" not in err and "Wahrheitswert" not in err) if a["kind"] == "e" else ("Implementierung" not in err):
+            ck.violation("handler-chain kddp problem=message-missing kind=%s" % a["kind"], "kddp does not print the diagnostic's message", rep)
+        elif (rc != 0) != (a["kind"] == "e"):
+            ck.violation("handler-chain kddp problem=exit-status kind=%s exit=%d" % (a["kind"], rc), "exit status %d for a run whose only diagnostic is %s" % (rc, "an error" if a["kind"] == "e" else "a warning"), rep)
+    hstat["kddp_runs"] = len(ksel)
+    ck.cov["handler_chain"] = hstat
+    log('[c07] %.1fs handler chain done' % (time.time()-ck.t0))
+
     # ---- configuration: which of the three repairs does the tree under test contain? --------------
     fx = fixed_scenarios()
     byname = {next(k for k in f.kinds if k.startswith("fixed:"))[6:]: f for f in fx}
